@@ -345,7 +345,10 @@ func oracleC05(h *History, ci int, c *CallObs, res *hx.Result, st5 *c05state) {
 
 // what the session JSON says before the call (read with encoding/json only, no goflow types)
 type beforeSession struct {
-	Status string `json:"status"`
+	Status  string `json:"status"`
+	Trigger struct {
+		Call json.RawMessage `json:"call"`
+	} `json:"trigger"`
 	Runs   []struct {
 		Status string `json:"status"`
 		Flow   struct {
@@ -408,6 +411,11 @@ func expectC10(before []byte, a *Assets, op *Op) (c10expect, bool) {
 	f := a.flow(idOf(wr.Flow.UUID))
 	if f == nil {
 		return c10expect{impossible: "missing flow"}, true
+	}
+	if f.Type == 2 && (len(b.Trigger.Call) == 0 || string(b.Trigger.Call) == "null") {
+		// the flow was re-saved as a voice flow and the session has no call to speak into: one more way in which the
+		// flow the run is in can no longer be used (the sentence's list is "(missing flow, vanished node, ...)")
+		return c10expect{impossible: "voice flow without call"}, true
 	}
 	if len(wr.Path) == 0 {
 		return c10expect{impossible: "vanished node"}, true
